@@ -100,6 +100,7 @@ theorem sim_raw {lim : Limits} {K : Nat} {e eX eX' : Enf} {k : Nat} {r : Raw} (h
   | error br =>
     exfalso
     have hs := observe_err h2
+    rw [pro_of_not_pd r h.pd_e] at hs
     obtain ⟨k1, k2, k3, k4, k5, k6⟩ := erase_kinds r
     have hmk := mkOf_erase_ge eX.containers r
     simp only [Within, next, h.pd_x, Bool.false_and, Bool.false_eq_true, if_false, h.lim_x, limX, k1, k2, k3, k4] at hwx
